@@ -173,6 +173,7 @@ class FramingModel:
             if a is not None:
                 atoms.append(a)
         row = {"path": p, "atoms": atoms, "kind": "?", "end": p.end[0]}
+        row["reads"] = len([e for e in p.calls() if re.search(r"std::io::Read::read(_exact|_to_end)?$| as std::io::Read>::read(_exact|_to_end)?$", e[2]) or (e[6] or "").startswith("std::io::Read::read")])
         row["scanned"] = any(c and c[0] == "variant" and c[2] == "None" and c[3] and c[3][0] == "call" and
                              re.search(r"(slice::Iter|vec::IntoIter)<.*> as std::iter::Iterator>::next$", c[3][1]) and not term_lits(self.facts, c[3]) for bb, c in p.conds)
         if p.end[0] != "return":
@@ -325,7 +326,7 @@ def table_mismatches(FM, aspects, merge=None):
             continue       # needs more list elements than the exploration bound of a scanning loop covers
         comp = [r for r in FM.rows if r["end"] == "return" and FM.compatible(r, A)]
         # paths that fail for I/O reasons while buffering the body are not framing decisions
-        comp = [r for r in comp if not (r["kind"] == "err" and W["kind"] == "ok" and W.get("reader") == "buffer")]
+        comp = [r for r in comp if not (r["kind"] == "err" and W["kind"] == "ok" and r["reads"] > 0)]
         rows_n += 1
         if not comp:
             bad.append((A, "no path", W))
